@@ -207,7 +207,8 @@ static int mx_take(mx_ep *e, unsigned char **out)
         unsigned char *ob;
         /* DTLS: a GetOutdata call on an endpoint with nothing queued means "timeout: resend the flight";
            only the call that acknowledges a completed flight (flightDone) is made, like the reference apps */
-        if (MX_IS_DTLS(e->ver) && e->ssl->outlen == 0 && !e->ssl->flightDone) break;
+        if (MX_IS_DTLS(e->ver) && e->ssl->outlen == 0 && !e->ssl->flightDone && e->lastrc != MATRIXSSL_REQUEST_SEND) break;
+        if (e->lastrc == MATRIXSSL_REQUEST_SEND) e->lastrc = 0;   /* the library asked for a send (e.g. DTLS saw a repeated flight and wants to resend its own) */
         mx_actor = e->id; e->calls++; MX_ENTER();
         int n = MX_IS_DTLS(e->ver) ? matrixDtlsGetOutdata(e->ssl, &ob) : matrixSslGetOutdata(e->ssl, &ob); MX_LEAVE();
         if (n <= 0) { if (n < 0) { e->dead = 1; e->lastrc = n; } break; }
